@@ -67,6 +67,7 @@ class Recorder:
     def fail(self, case, expected, actual, relation, bucket=None, extra=None):
         self.counters['failures_seen'] += 1
         b = bucket or relation
+        self.counters['failed:' + str(b)[:80]] += 1
         self._per_bucket[b] = self._per_bucket.get(b, 0) + 1
         if self._per_bucket[b] <= MAX_PER_BUCKET and len(self.failures) < MAX_FAILS_KEPT:
             self.failures.append({'case': case, 'expected': expected, 'actual': actual, 'relation': relation,
